@@ -42,6 +42,13 @@ def jobs(tier):
                         if p_mode == "arity" and (q or variant != "A"):
                             continue
                         out.append({"spec": spec, "algo": "dsa", "params": {"stop_cycle": k, "variant": variant, "p_mode": p_mode}, "props": PROPS, "label": label})
+    # a hub with 3 neighbours (postponed messages from several neighbours at once): fixed initial values keep it small
+    for label, spec in ls_common.instance_family("quick", "star4"):
+        if q and spec["mode"] == "max":
+            continue
+        spec = dict(spec, initial={"v0": 0, "v1": 0, "v2": 1, "v3": 0})
+        out.append({"spec": spec, "algo": "mgm", "params": {"stop_cycle": 3}, "props": PROPS, "unit_menu": (0.5,), "label": label})
+        out.append({"spec": spec, "algo": "dsa", "params": {"stop_cycle": 2, "variant": "B", "p_mode": "fixed"}, "props": PROPS, "label": label})
     return out
 
 
